@@ -32,7 +32,7 @@ RUN_WALL = 30
 HARD_WALL = 600
 
 PROFILE = dict(
-    p_pool_l=0.25, p_pool_s=0.15, ckpt=True,
+    p_pool_l=0.25, p_pool_s=0.15, ckpt=True, p_long_sampling=0.2,
     fault_kinds=['stop_resume', 'stop_resume', 'stop_resume', 'kill', 'kill',
                  'slice', 'timeout', 'observe'])
 
@@ -202,6 +202,15 @@ def full_state(world):
     logical content of the checkpoint."""
     _, parts = digest.result_digest(world.sampler)
     parts = dict(parts)
+    # sampling state of every bound (proposal caches and counters): not part
+    # of any result yet, but it decides every future proposal
+    bs = []
+    for b in world.sampler.bounds:
+        for o in (b, getattr(b, 'outer_bound', None)):
+            if o is not None and hasattr(o, 'n_sample'):
+                bs.append([int(o.n_sample), int(o.n_reject),
+                           np.asarray(o.points)])
+    parts['bound_sampling_state'] = digest.digest(bs)
     try:
         parts['file'], _ = digest.h5_file_logical(world.filepath)
     except Exception as e:
